@@ -415,3 +415,178 @@ def crosscheck_frame(n, seed):
 
 
 UNITS = [AccessorUnit()]
+
+
+# ================================================================================================== constructors, from_blob, pickle
+class ConstructorUnit(Unit):
+    """every documented way of making a Frame establishes FrameInv for the new frame (and keeps it for the frames it was made from), also after user writes"""
+    name = 'Frame constructors / from_blob / __reduce__ + unreduce'
+    targets = (f'{FRAME}::Frame.__init__', f'{FRAME}::Frame.from_blob', f'{FRAME}::Frame.__reduce__', f'{FRAME}::Frame.unreduce', f'{FRAME}::Frame.validate_format',
+               f'{FRAME}::Frame.validate_format_or_Frame')
+    required_covers = ('constructed:array', 'constructed:frame', 'constructed:dict', 'constructed:blob', 'constructed:pickle')
+    mutants = (
+        ('new frame inherits cached views of a relabelled source', f'{FRAME}::Frame.__init__', "            self.__jpg    = image.__jpg\n", "            self.__jpg    = image.__jpg\n            self.__dict__.update({k: v for k, v in image.__dict__.items() if k.startswith('_Frame__ro_')}) if False else [setattr(self, k, v) for k, v in list(vars(image).items()) if k.startswith('_Frame__ro_')]\n", ''),
+        ('raw image marked as having a jpg', f'{FRAME}::Frame.__init__', "                self.__jpg = False  # False means jpg of valid image not created yet", "                self.__jpg = None  # False means jpg of valid image not created yet", 'C10.FrameInv'),
+        ('decoded jpg image left writable', f'{FRAME}::Frame.from_blob', "            if is_jpg:\n                image.flags.writeable = False\n", "            if is_jpg:\n                pass\n", 'C10.FrameInv'),
+        ('unreduce always makes the image writable', f'{FRAME}::Frame.unreduce', 'image.flags.writeable = writeable', 'image.flags.writeable = True', 'C10.'),
+    )[1:]
+
+    def shapes(self, tier):
+        out = []
+        srcs = [('none', None, False, False, ())] + [(k, fm, wr, jc, ca) for fm in FORMATS for (k, wr, jc, ca) in
+                                                      (('jpgonly', False, False, ()), ('arr', True, False, ()), ('arr', False, False, ()), ('arr', False, True, ()),
+                                                       ('arr', False, False, tuple(X for X in FORMATS if X != fm)))]
+        for fm in FORMATS:
+            for wr in (True, False):
+                for data in ('none', 'dict'):
+                    out.append(('array', fm, wr, data, None))
+        for src in srcs:
+            out.append(('array+frame', src, True, None, None))
+            for data in ('none', 'dict', 'frame'):
+                fmts = [None]
+                if src[1] in ('RGB', 'BGR'):
+                    fmts += [src[1], 'BGR' if src[1] == 'RGB' else 'RGB']
+                elif src[1] == 'GRAY':
+                    fmts += ['GRAY']
+                for f2 in fmts:
+                    out.append(('frame', src, None, data, f2))
+            out.append(('pickle', src, None, None, None))
+        out.append(('dict', None, None, None, None))
+        for fm in (None,) + FORMATS:
+            for is_jpg in (True, False):
+                for dims in (True, False):
+                    out.append(('blob', fm, is_jpg, dims, None))
+        return out
+
+    def run(self, shape, dec):
+        form, a, b, c, d = shape
+        ex = new_exec(dec, FRAME)
+        setup(ex)
+        ex.replay_info = dict(form=form, args=[str(x) for x in (a, b, c, d)])
+        ex.model_vars = {}
+        frames = []
+        FrameCls = ClassRef('Frame')
+        O = ex.oblige
+        try:
+            if form == 'array':
+                fmt, wr, data = a, b, c
+                h, w = z3.Int('h_n'), z3.Int('w_n')
+                ex.assume(z3.And(h >= 1, w >= 1))
+                arr = IM.new_array(ex, (h, w) if fmt == 'GRAY' else (h, w, 3), z3.Const('pix_n', Pix), wr, 'given')
+                dd = {'k': z3.Int('d')} if data == 'dict' else None
+                r = ex.construct('Frame', [arr, dd, fmt], {})
+                ex.cover('constructed:array')
+                O('C10.ctor: Frame(array, data, format) wraps the given array and data', r.f['_Frame__image'] is arr and (r.f['_Frame__data'] is dd if dd is not None else r.f['_Frame__data'] == {})
+                  and r.f['_Frame__shapef'][1] == fmt)
+                frames = [('result', r)]
+            elif form in ('array+frame', 'frame', 'pickle'):
+                src = make_frame(ex, *a)
+                kind, sfmt = a[0], a[1]
+                if form == 'array+frame':
+                    h, w = z3.Int('h_n'), z3.Int('w_n')
+                    ex.assume(z3.And(h >= 1, w >= 1))
+                    ch3 = sfmt != 'GRAY'
+                    arr = IM.new_array(ex, (h, w, 3) if ch3 else (h, w), z3.Const('pix_n', Pix), True, 'given')
+                    if kind == 'none':
+                        # Frame(array, image-less frame): no format to inherit -> 3-channel images must raise
+                        try:
+                            r = ex.construct('Frame', [arr, src], {})
+                            O('C10.ctor: a 3-channel image without any format is rejected', False)
+                        except ExcSig as e:
+                            O('C10.ctor: a 3-channel image without any format is rejected', e.cls == 'ValueError')
+                        ex.cover('constructed:array')
+                        ex.outcome = 'raise'
+                        return ex
+                    r = ex.construct('Frame', [arr, src], {})
+                    O('C10.ctor: Frame(array, frame) takes data and format from the frame', r.f['_Frame__image'] is arr and r.f['_Frame__data'] is src.f['_Frame__data']
+                      and r.f['_Frame__shapef'][1] == sfmt)
+                    ex.cover('constructed:array')
+                elif form == 'frame':
+                    data, f2 = c, d
+                    other = make_frame(ex, 'none', None, False, False, (), tag='o')
+                    dd = {'frame': other, 'dict': {'k': z3.Int('d')}, 'none': None}[data]
+                    r = ex.construct('Frame', [src, dd, f2], {})
+                    ex.cover('constructed:frame')
+                    want_data = src.f['_Frame__data'] if dd is None else other.f['_Frame__data'] if data == 'frame' else dd
+                    O('C10.ctor: Frame(frame, data, format) shares the image (and its jpg), takes the requested data', r.f['_Frame__image'] is src.f['_Frame__image']
+                      and r.f['_Frame__jpg'] is src.f['_Frame__jpg'] and r.f['_Frame__data'] is want_data)
+                    if kind != 'none':
+                        O('C10.ctor: the format is the requested one, else the source format', r.f['_Frame__shapef'][1] == (f2 or sfmt))
+                else:
+                    red = ex.call_value(ex.getattr(src, '__reduce__'), [], {})
+                    fn, args = red
+                    args = list(args)
+                    orig_img = args[0]
+                    if isinstance(orig_img, Obj) and orig_img.cls == 'ndarray':       # pickle hands unreduce a private, writable copy of the array   # TRUSTED: pickle/numpy
+                        args[0] = IM.new_array(ex, orig_img.f['shape'], orig_img.f['pix'], True, 'unpickled')
+                    r = ex.call_value(fn, args, {})
+                    ex.cover('constructed:pickle')
+                    O('C10.pickle: the unpickled frame has the same data, jpg and shape/format record', r is not src and all(r.f[k] is src.f[k] for k in ('_Frame__data', '_Frame__jpg', '_Frame__shapef')))
+                    ri = r.f['_Frame__image']
+                    if isinstance(orig_img, Obj) and orig_img.cls == 'ndarray':
+                        O('C10.pickle: the image comes back with the pixels and exactly the writability it was pickled with', isinstance(ri, Obj) and ri is args[0] and
+                          ri.f['pix'] is orig_img.f['pix'] and ri.f['flags'].f['writeable'] is a[2])
+                    else:
+                        O('C10.pickle: image-less / jpg-only frames come back as such', ri is orig_img)
+                frames = [('source', src), ('result', r)]
+            elif form == 'dict':
+                dd = {'k': 1}
+                r = ex.construct('Frame', [dd], {})
+                ex.cover('constructed:dict')
+                O('C10.ctor: Frame(dict) is a data-only frame', r.f['_Frame__image'] is None and r.f['_Frame__data'] is dd)
+                frames = [('result', r)]
+            else:
+                fmt, is_jpg, dims = a, b, c
+                h, w = z3.Int('h_b'), z3.Int('w_b')
+                ex.assume(z3.And(h >= 1, w >= 1))
+                bl = IM.blob(ex, z3.Const('blob_b', IM.Bytes), is_jpg, h, w, 1 if fmt == 'GRAY' else 3)      # precondition: the dimensions given are the blob's own
+                fb = ex.getattr(FrameCls, 'from_blob')
+                r = ex.call_value(fb, [bl, {'k': 1}] + ([h, w] if dims else [None, None]) + [fmt], {})
+                ex.cover('constructed:blob')
+                img = r.f['_Frame__image']
+                if is_jpg and dims:
+                    O('C10.from_blob: a jpg with known dimensions is kept undecoded', img is False and r.f['_Frame__jpg'] is bl)
+                else:
+                    O('C10.from_blob: otherwise the blob is decoded', isinstance(img, Obj) and img.cls == 'ndarray')
+                    if isinstance(img, Obj):
+                        O('C10.from_blob: a jpg-backed decoded image is read-only, the jpg is kept only then', (r.f['_Frame__jpg'] is bl and img.f['flags'].f['writeable'] is False) if is_jpg
+                          else r.f['_Frame__jpg'] is False)
+                O('C10.from_blob: the format defaults to BGR', r.f['_Frame__shapef'][1] == (fmt or 'BGR'))
+                frames = [('result', r)]
+        except ExcSig as e:
+            ex.outcome = f'raise {e.cls}'
+            O(f'C10.no_failure: {form} raises {e.cls} ({e.origin})', e.cls in ('ValueError', 'AssertionError') and form == 'blob')
+            return ex
+        ex.outcome = 'return'
+        for who, fr_ in frames:
+            for n, cnd in frame_inv(ex, fr_, who):
+                O(n, cnd)
+        IM.user_writes(ex)
+        for who, fr_ in frames:
+            for n, cnd in frame_inv(ex, fr_, who):
+                O(n + ' [after user writes]', cnd)
+        return ex
+
+    def replay(self, failure):
+        import numpy as np
+        import cv2
+        from openfilter.filter_runtime.frame import Frame
+        obs = []
+        for fmt, other in (('BGR', 'RGB'), ('RGB', 'BGR')):
+            img = np.random.default_rng(3).integers(0, 255, (6, 5, 3), dtype=np.uint8)
+            img.flags.writeable = False
+            src = Frame(img, {'k': 1}, fmt)
+            src.gray, src.ro_rgb, src.ro_bgr
+            rel = Frame(src, None, other)
+            want = cv2.cvtColor(img, cv2.COLOR_RGB2GRAY if other == 'RGB' else cv2.COLOR_BGR2GRAY)
+            if not np.array_equal(rel.gray.image, want):
+                obs.append(f'Frame({fmt} frame, format={other!r}).gray is not the {other} luminance of its pixels (a cached view of the source was inherited)')
+            for acc in ('ro_rgb', 'ro_bgr'):
+                v = getattr(rel, acc)
+                w2 = img if v.format == other else cv2.cvtColor(img, cv2.COLOR_RGB2BGR)
+                if not np.array_equal(v.image, w2):
+                    obs.append(f'Frame({fmt} frame, format={other!r}).{acc} shows stale/inherited pixels')
+        return {'confirmed': bool(obs), 'inputs': failure.get('extra'), 'observed': obs or 'no violation reproduced natively', 'required': 'every view shows the documented conversion of its source pixels'}
+
+
+UNITS.append(ConstructorUnit())
